@@ -104,6 +104,10 @@ def _handmade():
             h2.mo = MolecularOrbitals("restricted", norb, norb, occs, mo.coeffs.copy(), mo.energies.copy(),
                                       mo.irreps, occs_aminusb=am)
             out.append(("fchk:aminusb", h2))
+            h2b = copy.deepcopy(h2)
+            h2b.extra = dict(h2b.extra or {})
+            h2b.extra["mo_spin"] = np.full(norb, 3)
+            out.append(("fchk:aminusb+mo_spin", h2b))
             # generalized contractions: fold the two s shells of sto-3g on F (same exponents? no) -> build explicit one
             h3 = copy.deepcopy(h)
             shells = list(h3.obasis.shells)
@@ -282,6 +286,10 @@ def _one_case(ctx, tmp, label, obj, fmt, ac, mode):
         nwarn = sum(1 for w in wlist if issubclass(w.category, PrepareDumpWarning))
         if not ac and ret is not o:
             return (f"returned-other:{fmt}", f"dump_one to {fmt} without allow_changes returned a different object")
+        if ret is o and nwarn > 0:
+            return (f"announced-conversion-returns-argument:{fmt}",
+                    f"dump_one to {fmt} announced a conversion (PrepareDumpWarning) but returned the caller's object, "
+                    "not the converted object that was written")
         if ret is not o:
             if nwarn == 0:
                 return (f"silent-conversion:{fmt}", f"dump_one to {fmt} converted the object without a PrepareDumpWarning")
